@@ -131,6 +131,23 @@ def run(tier, seed, replay=None):
             except lib.ModelError:
                 pass
 
+    # --- spelling families of every KNOWN name: the safe list, the wrappers, the handler CLIs and the names the analyser
+    # treats specially.  A spelling that is not itself a known name (path-qualified, prefixed, suffixed, case-changed)
+    # names some other program: unknown, so never approved - whatever its arguments.  (Quoting or escaping the name
+    # does not change the program and is not in this family.)
+    from dippy.cli import KNOWN_HANDLERS
+    special = ["test", "[", "cd", "pushd", "popd", "command", "builtin", "time", "true", "false", "env", "xargs", "find", "sh", "bash", "git", "docker",
+               "kubectl", "python", "python3", "sqlite3", "sed", "sort", "awk", "curl", "tee", "echo", "printf", "ls", "cat"]
+    all_known = sorted(set(SIMPLE_SAFE) | set(WRAPPER_COMMANDS) | set(KNOWN_HANDLERS) | set(special))
+    pool = [n for n in all_known if n in special] + [n for i, n in enumerate(all_known) if n not in special and (tier == "thorough" or i % 5 == seed % 5)]
+    families = ["./{n}", "sub/{n}", "/opt/x/{n}", "../{n}", "{n}/", ".{n}", "{n}.", "{N}", "{n}2", "{n}.sh", "ci/{n}", "/usr/local/bin/../{n}", "~/{n}", "{n}/{n}"]
+    for n in pool:
+        for fam in families:
+            sp = fam.replace("{n}", n).replace("{N}", n.upper())
+            if sp in all_known or get_handler(sp) is not None:
+                continue
+            for args in ("", " x", " -rf /", " -f x y", " deploy production"):
+                judge_text(sp + args, "known-name-family")
     for name in names[:10]:
         for sp in (f'"{name}" a', f"'{name}' a", f'{name[:1]}""{name[1:]} a', f"\\{name} a", f"${{X:-{name}}} a", f"$(echo {name}) a",
                    f"$X{name} a", f"`echo {name}` a", f"{name}$'' a", f"eval {name}", f"exec {name}"):
@@ -189,6 +206,9 @@ def run(tier, seed, replay=None):
     #  minutes - see DESIGN.md, finding on C06; the depth here is kept small)
     for text in ["ls " + "a " * 50000, "(" * 400 + "ls" + ")" * 400, "echo " + "$(" * 8 + "ls" + ")" * 8, "x" * 200000]:
         judge_text(text, "huge", must_not_allow=False)
+    # function-level ties of the two helpers that decide WHICH word is the program name
+    from . import funcs
+    funcs.run_ties(out, model, ["is_assignment", "strip_quotes"], tier, rng, an)
     model.close()
     n, mism = core.coq_crosscheck("C05", xcheck)
     out.extra["coq_vm_crosscheck"] = {"cases": n, "mismatches": len(mism)}
@@ -196,6 +216,7 @@ def run(tier, seed, replay=None):
         out.disagreements.append({"correspondence": "extracted OCaml model <-> vm_compute in Coq", "detail": mism[:5]})
     out.extra["rule"] = ("unknown program names (not in SIMPLE_SAFE/WRAPPER_COMMANDS, no handler; bare, path-qualified) x help-looking tokens "
                          "at every argument position x 0-4 (quick) / 0-11 (thorough) arguments; behind assignment prefixes and wrappers; "
+                         "path-qualified / affixed / case-changed spellings of every known name (safe list, wrappers, handler CLIs, specially treated names) x argument lists; "
                          "quoted/escaped/expansion-derived names; a list of syntax errors; every truncation of valid programs that the "
                          "parser rejects; random strings the parser rejects; huge inputs. distinct = distinct inputs (all non-trivial)")
     return out
